@@ -36,7 +36,7 @@ ASSUMPTIONS = [
 ]
 SHARDS = {"quick": 12, "thorough": 14}
 FLOORS = {"quick": {"histories": 900, "calls_checked": 3000, "old_version_calls": 900, "idreuse_achieved": 5, "fresh_process_sessions": 100, "unchanged_sessions_checked": 20},
-          "thorough": {"idreuse_achieved": 50, "histories": 30000, "calls_checked": 150000, "old_version_calls": 30000, "fresh_process_sessions": 2000, "unchanged_sessions_checked": 400}}
+          "thorough": {"idreuse_achieved": 50, "histories": 30000, "calls_checked": 100000, "old_version_calls": 30000, "fresh_process_sessions": 2000, "unchanged_sessions_checked": 400}}
 
 EXEC = []
 _uid = [0]
